@@ -8,7 +8,7 @@ LEVEL = 'other'
 TRUSTED = ['rustc nightly (MIR, callee resolution)', "chrono: Datelike/Timelike accessors return the field of the local time at the value's own offset; DateTime eq/cmp compare instants; checked_*_signed return None on overflow; RFC 3339 parsing/printing"]
 EXPLANATION = ('R1: each registered accessor name maps to a function whose result is exactly one chrono accessor applied to the receiver as is (no with_timezone/naive_utc/to_utc), with the documented origin: '
                'getFullYear: year, getMonth: month0, getDayOfMonth: day0, getDate: day, getDayOfWeek: weekday().num_days_from_sunday(), getHours/Minutes/Seconds: hour/minute/second, getMilliseconds: timestamp_subsec_millis, '
-               'getDayOfYear: whole days since (receiver - day0 days - month0 months); R2: the Timestamp arms of eq/partial_cmp call DateTime\'s own eq/cmp (instant based) on the two payloads; '
+               'getDayOfYear: ordinal0 (0-based day of the year); R2: the Timestamp arms of eq/partial_cmp call DateTime\'s own eq/cmp (instant based) on the two payloads; '
                'R3: Timestamp +/- Duration use checked_add_signed/checked_sub_signed with None -> error, Timestamp - Timestamp is the (never overflowing) instant difference; '
                'R4: timestamp() is parse_from_rfc3339 of the whole argument, string(timestamp) is to_rfc3339. Gregorian arithmetic and RFC 3339 round trips are chrono\'s and not decided.')
 ASSUMPTIONS = ['calendar correctness, RFC 3339 parsing/printing and their round trip are delegated to chrono']
@@ -25,6 +25,7 @@ TABLE = {
     'getMinutes': ['chrono::Timelike::minute'],
     'getSeconds': ['chrono::Timelike::second'],
     'getMilliseconds': ['chrono::DateTime::timestamp_subsec_millis'],
+    'getDayOfYear': ['chrono::Datelike::ordinal0'],
 }
 FORBIDDEN = re.compile(r'(with_timezone|naive_utc|to_utc|naive_local|fixed_offset|timestamp$|timestamp_millis$|timestamp_nanos)')
 
@@ -93,24 +94,6 @@ def run(fx, rep):
         rep.check(okk, 'R1', 'accessor/%s' % name, b.loc(), '%s -> %s on the receiver' % (name, '.'.join(c.rsplit('::', 1)[-1] for c in chain)), 'accessor %s: %s' % (name, why))
         bad = [n for n in names if FORBIDDEN.search(n.rsplit('::', 1)[-1])]
         rep.check(not bad, 'R1', 'accessor/%s/no-zone-conversion' % name, b.loc(), 'no conversion to another offset', 'accessor %s converts the timestamp first (%s): the field is no longer the one at its own offset' % (name, bad))
-    # getDayOfYear
-    name = 'getDayOfYear'
-    if name not in reg:
-        rep.violation('R1', 'accessor/%s' % name, d.loc(), 'accessor %s is not registered' % name)
-    else:
-        b = [x for x in fx.bodies.values() if F.norm_path(x.path) == reg[name]][0]
-        rep.analysed(b)
-        pv = F.Prov(b, transparent={k: v for k, v in F.TRANSPARENT.items() if k not in ('std::convert::Into::into', 'std::convert::From::from')})
-        names = [F.norm_callee(t) for bi, t in b.calls() if (F.norm_callee(t) or '').startswith('chrono::')]
-        want = ['chrono::Datelike::day0', 'chrono::Days::new', 'chrono::DateTime::checked_sub_days', 'chrono::Datelike::month0', 'chrono::Months::new', 'chrono::DateTime::checked_sub_months',
-                'chrono::DateTime::signed_duration_since', 'chrono::TimeDelta::num_days']
-        okk = names == want
-        if okk:
-            sd = [(bi, t) for bi, t in b.calls() if F.norm_callee(t) == 'chrono::DateTime::signed_duration_since'][0][1]
-            a0 = pv.of_operand(sd['args'][0])
-            a1 = pv.of_operand(sd['args'][1])
-            okk = all(receiver_term(x) for x in a0) and all(F.term_contains(x, lambda y: y[0] == 'call' and y[1] == 'chrono::DateTime::checked_sub_months') for x in a1)
-        rep.check(okk, 'R1', 'accessor/getDayOfYear', b.loc(), 'days since (receiver - day0 days - month0 months)', 'getDayOfYear is computed as %s' % names)
     # ---------------- R2
     for tr, want in (('std::cmp::PartialEq', r'^<chrono::DateTime as std::cmp::PartialEq>::eq$'), ('std::cmp::PartialOrd', r'^<chrono::DateTime as std::cmp::Ord>::cmp$')):
         b = find_impl_body(fx, tr, VALUE)
@@ -158,6 +141,6 @@ def run(fx, rep):
     tr_ = [(bi, t) for bi, t in sb.calls() if F.norm_callee(t) == 'chrono::DateTime::to_rfc3339']
     okk = len(tr_) == 1 and all(x[0] == 'f' and x[1][0] == 'dc' and x[1][2] == 'Timestamp' for x in spv.of_operand(tr_[0][1]['args'][0]))
     rep.check(okk, 'R4', 'string(timestamp)/to_rfc3339', sb.loc(), 'string(t) = t.to_rfc3339()', 'string(timestamp) is not to_rfc3339 of the payload')
-    rep.floor('R1', 19)
+    rep.floor('R1', 20)
     rep.floor('R2', 4)
     rep.floor('R3', 3)
